@@ -21,6 +21,8 @@ import (
 
 var r *mon.Run
 
+var held = mon.NewHeldRing(96)
+
 // refHeader is the independent MS-CIFS 2.2.3.1 layout.
 type refHeader struct {
 	Command                         uint8
@@ -141,6 +143,9 @@ func checkHeader(h refHeader, variant int, tag string) {
 		if err != nil {
 			r.Violation("header.Marshal:error", err.Error(), cs)
 			return
+		}
+		if ch := held.Hold(got, "header"); len(ch) > 0 {
+			r.Violation("header.Marshal:held-output-changed", "bytes returned by an earlier Header.Marshal changed after later calls", cs)
 		}
 		if !bytes.Equal(got, want) {
 			off := 0
@@ -361,6 +366,9 @@ func framing(structs []smbgen.Struct) {
 				continue
 			}
 			cs["wire"] = mon.FullHex(wire)
+			for _, tag := range held.Hold(wire, s.Name) {
+				r.Violation(tag+":held-output-changed", "bytes returned by an earlier Message.Marshal of "+tag+" changed after later calls (output aliases a reused buffer)", cs)
+			}
 			if len(wire) < 35 {
 				r.Violation(s.Name+":framing:short", fmt.Sprintf("message is %d bytes", len(wire)), cs)
 				continue
